@@ -44,6 +44,7 @@ class PoolScenario(Scenario):
     wires = ["json", "jsonstr", "file", "pickle"]
     boxes = ["dict", "frame", "rec"]
     factors_odd = 0.15
+    odd_row_weights = 0.0  # share of negative / NaN entries in the weight arrays of fill.numpy (fill ignores such weights)
     spec_opts = {}
     record_opts = {"no_none": True, "numeric_cuts": False}
     owners = ["T1", "T2", "T3"]
@@ -93,7 +94,8 @@ class PoolScenario(Scenario):
             wform = s.pick(["one", "one", "array", "array", 0.5, 2.0, 1.0])
             st.update(obj=h, rows=rows, weights=wform, box=s.pick(self.boxes))
             if wform == "array":
-                st["row_weights"] = [s.pick(specmod.POS_WEIGHTS + [0.0, 0.0]) for _ in rows]
+                st["row_weights"] = [specmod.enc_float(s.pick(specmod.ODD_WEIGHTS)) if s.chance(self.odd_row_weights) else s.pick(specmod.POS_WEIGHTS + [0.0, 0.0])
+                                     for _ in rows]
         elif op in ("add", "iadd"):
             hs = ab.handles()
             l = s.pick(hs)
